@@ -59,6 +59,13 @@ pub fn base_project(n: usize, rich: bool) -> ItemProject {
         if rich || i % 2 == 0 {
             items.push(format!("#[tauri::command]\npub async fn stream_{i}(on_item: Channel<K{i}>) -> bool {{ let _ = on_item; true }}\n", i = i));
         }
+        if i == 0 {
+            // types whose names are equal up to letter case (any order that folds case leaves them tied)
+            items.push("#[derive(Debug, Clone, Serialize, Deserialize)]\npub struct UserId { pub value: u64 }\n".to_string());
+            items.push("#[derive(Debug, Clone, Serialize, Deserialize)]\npub struct UserID { pub raw: String }\n".to_string());
+            items.push("#[derive(Debug, Clone, Serialize, Deserialize)]\npub struct USERID { pub legacy: i32 }\n".to_string());
+            items.push("#[tauri::command]\npub fn ids(a: UserId, b: UserID) -> USERID { let _ = (a, b); todo!() }\n".to_string());
+        }
         // two events emitted from every file: `shared` always with the same payload type, `mixed`
         // with a different one per file. Their emit sites sit at opposite ends of the file in
         // alternation, so that which sites are neighbours in processing order (and which are
@@ -588,7 +595,7 @@ pub fn run(tier: Tier) -> CheckResult {
         {"kind":"transform","n_files":3,"zod":false,"transform":"MoveTypes"},
         {"kind":"cli","n_files":2,"zod":true,"flags":"--verbose + visualize_deps"}
     ]));
-    res.coverage.set("rule", format!("[round 7: two event names with one listener identifier in alternating files; overlapping mapping keys (DateTime, DateTime<Utc>, DateTime<Local>) in the mapped project] two further events are emitted from every file, one with the same payload type everywhere and one with a different type per file, at opposite ends of the file in alternation (which emit sites are neighbours depends on the layout alone); projects of 2..{} files (file i: struct T_i depending on T_i+1 through Option and HashMap<String, Vec<..>>, enum K_i, 1-2 commands, a channel, an event); for each project and mode every iteration-order schedule at hook sites S1 (files), S4 (plain struct order), S5/S6 (topological sort): full product for <= 3 (thorough: 4) files, deviation bound {} beyond; oracle: all files byte-identical to the identity schedule's output modulo the timestamp line; identity schedule run twice (replay divergence). Transformations (a leading comment of every length that puts multi-byte text across the 8 KiB and 16 KiB offsets of a source file; comments/whitespace, helper fns, non-serde items: output identical; reorder items, move types between files, merge, split, rename files: identical multiset of parsed top-level declarations per file and, in Zod mode, still declaration-before-use). CLI seam: --verbose and visualize_deps leave the binding files identical (the latter adds exactly its two files); one process per hash seed 0..16 (quick) / 0..64 (thorough) - the preloaded getrandom shim makes every hash iteration order of the process a function of the seed - incl. reversed file order, must agree on every file incl. the dependency graphs; the same again with four type mappings in the configuration, two of them module-qualified spellings of one bare name.", max_files, if tier == Tier::Quick { 2 } else { 3 }));
+    res.coverage.set("rule", format!("[round 8: three types whose names are equal up to letter case in the first file of every project] [round 7: two event names with one listener identifier in alternating files; overlapping mapping keys (DateTime, DateTime<Utc>, DateTime<Local>) in the mapped project] two further events are emitted from every file, one with the same payload type everywhere and one with a different type per file, at opposite ends of the file in alternation (which emit sites are neighbours depends on the layout alone); projects of 2..{} files (file i: struct T_i depending on T_i+1 through Option and HashMap<String, Vec<..>>, enum K_i, 1-2 commands, a channel, an event); for each project and mode every iteration-order schedule at hook sites S1 (files), S4 (plain struct order), S5/S6 (topological sort): full product for <= 3 (thorough: 4) files, deviation bound {} beyond; oracle: all files byte-identical to the identity schedule's output modulo the timestamp line; identity schedule run twice (replay divergence). Transformations (a leading comment of every length that puts multi-byte text across the 8 KiB and 16 KiB offsets of a source file; comments/whitespace, helper fns, non-serde items: output identical; reorder items, move types between files, merge, split, rename files: identical multiset of parsed top-level declarations per file and, in Zod mode, still declaration-before-use). CLI seam: --verbose and visualize_deps leave the binding files identical (the latter adds exactly its two files); one process per hash seed 0..16 (quick) / 0..64 (thorough) - the preloaded getrandom shim makes every hash iteration order of the process a function of the seed - incl. reversed file order, must agree on every file incl. the dependency graphs; the same again with four type mappings in the configuration, two of them module-qualified spellings of one bare name.", max_files, if tier == Tier::Quick { 2 } else { 3 }));
     res.assumptions = vec!["hash iterations not behind a hook site are covered by the enumerated hash seeds of the process (a seed alphabet, deterministic and replayable, not a complete order product) and by fresh analyser instances in process".into()];
     let _ = gen::PRELUDE;
     res
